@@ -154,12 +154,12 @@ CLEAN_DTYPES = {'npstartA_merge': 'i8', 'npstartB_merge': 'i8', 'npoutA_merge': 
                 'haloindex_mainprog': 'i8', 'v_L2com_mainprog': ('f4', 3)}
 
 
-def gen_world(rng, max_slabs=4, max_halos=6, max_parts=4, want_clean=None, lc=False):
+def gen_world(rng, max_slabs=4, max_halos=6, max_parts=4, want_clean=None, lc=False, halo_counts=None):
     box = rng.choice([50.0, 500.0, 2000.0, 1185.0, 7.5])
     vz = rng.choice([777.0, 123.0, 3200.0, 9001.5, 55.5])
     if vz == box:
         vz += 1.0
-    nslab = 1 if lc else rng.randrange(1, max_slabs + 1)
+    nslab = 1 if lc else (len(halo_counts) if halo_counts else rng.randrange(1, max_slabs + 1))
     inds = [0] if lc else sorted(rng.sample(range(0, 40), nslab))
     T = rng.randrange(1, 4)
     header = {'BoxSize': box, 'VelZSpace_to_kms': vz, 'ppd': float(rng.choice([64, 1000, 6912])),
@@ -175,9 +175,9 @@ def gen_world(rng, max_slabs=4, max_halos=6, max_parts=4, want_clean=None, lc=Fa
         return out
     cleaned = (rng.random() < 0.6) if want_clean is None else want_clean
     slabs = []
-    for ind in inds:
+    for islab, ind in enumerate(inds):
         halos = []
-        for _ in range(rng.randrange(0, max_halos + 1)):
+        for _ in range(halo_counts[islab] if halo_counts else rng.randrange(0, max_halos + 1)):
             hid[0] += rng.randrange(1, 50)
             h = {'raw': add_lc_fields(rng, gen_halo_raw(rng, hid[0])) if lc else gen_halo_raw(rng, hid[0]),
                  'A': parts(rng.choice([0, 0, 1, 2, rng.randrange(0, max_parts + 1)])),
@@ -207,6 +207,23 @@ def gen_world(rng, max_slabs=4, max_halos=6, max_parts=4, want_clean=None, lc=Fa
         header['LightConeOrigins'] = [-990.0, -990.0, -990.0, -990.0, -990.0, -2990.0, -990.0, -2990.0, -990.0]
     return {'header': header, 'slabs': slabs, 'cleaned': cleaned, 'T': T, 'layout': rng.randrange(1, 5),
             'TimeSliceRedshiftsPrev': [0.575 + 0.1 * k for k in range(T)], 'lc': bool(lc)}
+
+
+_MAT_CACHE = {}
+
+
+def materialize(world):
+    """Large worlds are carried in a case as their generator call ({'gen': {'seed', 'kwargs'}}), not
+    as tens of megabytes of JSON; this rebuilds them (pure function of the seed)."""
+    if 'gen' not in world:
+        return world
+    import json
+    import random
+    key = json.dumps(world['gen'], sort_keys=True)
+    if key not in _MAT_CACHE:
+        _MAT_CACHE.clear()
+        _MAT_CACHE[key] = gen_world(random.Random(world['gen']['seed']), **world['gen']['kwargs'])
+    return _MAT_CACHE[key]
 
 
 # ------------------------------------------------------------ layout -------
